@@ -105,7 +105,7 @@ let () =
   (* C07 styled conversions into STL (Model/ConvStl.v); outside the source reader's faithful domain: class only *)
   let styled name code conv =
     register name (fun r ->
-      let doc = rstr r in
+      let _ = rint r in let doc = rstr r in
       let res = conv doc in
       if (Hashtbl.find Drv_plain.plain_simple code) doc then pres pstr res else ns_class res) in
   styled "convsrtstl" 0 convert_srt_stl;
